@@ -271,6 +271,18 @@ def run(rep, pdb, tier):
                 oku = False
         rng = ri[1] == num(0) and ri[2] == lin_add(j, num(1)) and ri[4] and not ri[3] and e.index == jj
         addef = ctx.def_term(ad)
+        if addef != P(0) and ad[0] == "var":
+            # `let mut coeffs = coeffs;` (the parameter re-bound) and similar moves: follow the value the working copy
+            # was cloned from back to the parameter, as long as nothing wrote it in between
+            t_, at_ = ad, e.loops[0] if e.loops else e.node
+            for _ in range(4):
+                v_ = value_before(ctx, t_, at_) if t_[0] == "var" else None
+                if v_ is None or v_ == t_:
+                    break
+                b_ = ctx.binds.get(t_[1])
+                at_ = b_.node if b_ is not None and b_.node is not None else at_
+                t_ = v_
+            addef = t_
         ok = okp and oku and rng and addef == P(0)
         det = "b starts as ad[j+1]=%s jj descending over 0..=j=%s c saved before overwrite, b = x*b + c=%s ad is a working copy of coeffs=%s" % (okp, rng, oku, addef == P(0))
     rep.add("deflate", rule, ok, dsets[0].node if dsets else ps["body"], det)
